@@ -485,7 +485,14 @@ func runCheck(prop, tier, only string, jobs, seed int, noReplay bool, dump strin
 			os.WriteFile(s.file, b, 0o644)
 		}
 		if !noReplay {
-			out := replay(l, disk, registry, replayDir, work, prop == "C10")
+			race := prop == "C10"
+			for _, s := range sats {
+				// harnesses that run the code from several goroutines are replayed under the race detector
+				if strings.Contains(s.ob.Harness, "producers") || strings.Contains(s.ob.Harness, "interleaving") || strings.Contains(s.ob.Harness, "concurrent") {
+					race = true
+				}
+			}
+			out := replay(l, disk, registry, replayDir, work, race)
 			for _, s := range sats {
 				s.result = out[filepath.Base(s.file)]
 			}
@@ -714,7 +721,7 @@ func replay(l *loaded, disk map[string]string, registry map[string][]string, rep
 				b := filepath.Base(f)
 				if v, ok := out[b]; !ok || strings.HasPrefix(v, "not-reproduced") {
 					if ok || !got {
-						out[b] = "reproduced data race: go test -race reported WARNING: DATA RACE while Evaluate ran from several goroutines"
+						out[b] = "reproduced data race: go test -race reported WARNING: DATA RACE while the code under test ran from several goroutines"
 					}
 				}
 			}
